@@ -53,6 +53,14 @@ def _frange(e, cache, atom):
                     from .ranges import int_bounds
                     lo, hi = int_bounds(n)
                     r = (float(lo), float(hi), False)
+        elif op == 'fsub' and n.args[1].op == 'call:floor' and n.args[1].args[0] is n.args[0]:
+            a = rec(n.args[0])
+            bad = a[2] or abs(a[0]) == INF or abs(a[1]) == INF
+            if not bad and math.floor(a[0]) == math.floor(a[1]) and abs(a[0]) < 2 ** 22:
+                fl = math.floor(a[0])
+                r = (max(0.0, round_down(a[0] - fl)), min(1.0, round_up(a[1] - fl)), False)
+            else:
+                r = (0.0, 1.0, bad)                        # x - floor(x) in [0, 1] for finite x
         elif op in ('fadd', 'fsub'):
             a, b = rec(n.args[0]), rec(n.args[1])
             if op == 'fsub': b = (-b[1], -b[0], b[2])
@@ -109,9 +117,11 @@ def _frange(e, cache, atom):
             a = rec(n.args[0])
             lo = 0.0 if a[0] <= 0 <= a[1] else min(abs(a[0]), abs(a[1]))
             r = (lo, max(abs(a[0]), abs(a[1])), a[2])
-        elif op in ('call:floor', 'call:round'):
+        elif op in ('call:floor', 'call:round', 'call:trunc', 'call:ceil'):
             a = rec(n.args[0])
-            r = (math.floor(a[0]) if abs(a[0]) != INF else a[0], math.ceil(a[1]) if abs(a[1]) != INF else a[1], a[2])
+            fl = {'call:floor': (math.floor, math.floor), 'call:round': (math.floor, math.ceil),
+                  'call:trunc': (math.floor, math.ceil), 'call:ceil': (math.ceil, math.ceil)}[op]
+            r = (float(fl[0](a[0])) if abs(a[0]) != INF else a[0], float(fl[1](a[1])) if abs(a[1]) != INF else a[1], a[2])
         elif op == 'call:sqrt':
             a = rec(n.args[0])
             r = (math.sqrt(max(a[0], 0.0)) * (1 - 1e-7) if a[0] != INF else INF, math.sqrt(a[1]) * (1 + 1e-7) if 0 <= a[1] != INF else INF, a[2] or a[0] < 0)
@@ -185,6 +195,15 @@ def _frange(e, cache, atom):
             r = (float(lo) if lo is not None else -INF, float(hi) if hi is not None else INF, False)
         else:
             r = TOP
+        if X.is_float(n.ty) and n.ty[1] == 32 and r is not TOP and op in ('fadd', 'fsub', 'fmul', 'fma', 'fdiv'):
+            # binary32 overflow: results beyond the largest finite value round to infinity
+            MAXF = 3.4028235677973366e38          # 2^128 * (1 - 2^-25): rounding boundary
+            lo, hi, nan_ = r
+            if lo > MAXF: lo = INF
+            if hi < -MAXF: hi = -INF
+            if hi > MAXF: hi = INF
+            if lo < -MAXF: lo = -INF
+            r = (lo, hi, nan_)
         cache[n.id] = r
         return r
     return rec(e)
